@@ -265,7 +265,9 @@ func HPathVarsModel() {
 		url += "    Path\n    {\n      \"id\": 2\n    }\n"
 	}
 	url += "    200 any\n  PUT\n    200 any\n"
-	far := "GET /c/{id}/f/{fid}\n"
+	// the method of the stand-alone resources: every HTTP method gets its path variables
+	meth := []string{"GET", "POST", "PUT", "PATCH", "DELETE"}[vInt("method", 0, 4)]
+	far := meth + " /c/{id}/f/{fid}\n"
 	switch farPath {
 	case 1:
 		far += "  Path\n  {\n    \"fid\": 3\n  }\n"
@@ -281,11 +283,13 @@ func HPathVarsModel() {
 	if hdrOnly {
 		far += "  404\n    Headers\n    {\n      \"h\": \"v\"\n    }\n"
 	}
+	// a stand-alone method whose parameter shares its prefix with nothing else
+	lone := meth + " /lone/{p}/{q}\n  200 any\n"
 	doc := "JSIGHT 0.3\n"
 	if order {
-		doc += far + url
+		doc += far + url + lone
 	} else {
-		doc += url + far
+		doc += lone + url + far
 	}
 	c, je := vBuildText(doc)
 	if hdrOnly {
